@@ -149,9 +149,24 @@ Definition compose_kept (k1 k2 : list bool) : list bool :=   (* k2 is over the k
                    | false :: r => false :: go r k2
                    | true :: r => match k2 with b :: s => b :: go r s | [] => false :: go r [] end
                    end) k1 k2.
+(* when a later pass fails the two label-related clean-ups are still judged: what they deleted must be
+   justified, and a function the CFG rules accept (C09: cfg_should_fail) must not be turned into one
+   that LabelTarget or CFG (stages 4, 5) then refuse *)
+Definition cleanup_early_ok (c : pcase) : bool :=
+  let '(f, o) := c in
+  if 3 <? o_stage o then
+    match align (fnodes f) (o_after_jumps o), align (o_after_jumps o) (o_after_labels o) with
+    | Some k1, Some k2 =>
+        let refs := label_refs (o_after_jumps o) in
+        deleted_ok (fun x r => match r with m :: _ => jump_to_next x m | [] => false end) (fnodes f) k1
+        && deleted_ok (fun x _ => match x with NLabel l => negb (existsb (String.eqb l) refs) | _ => false end) (o_after_jumps o) k2
+        && (cfg_should_fail (fnodes f) || negb ((o_stage o =? 4) || (o_stage o =? 5)))
+    | _, _ => false
+    end
+  else true.
 Definition cleanup_ok (c : pcase) : bool :=
   let '(f, o) := c in
-  if negb (o_stage o =? 0) then true else
+  if negb (o_stage o =? 0) then cleanup_early_ok c else
   match align (fnodes f) (o_after_jumps o), align (o_after_jumps o) (o_after_labels o), align (o_after_bind o) (o_nodes o) with
   | Some k1, Some k2, Some k3 =>
       let refs := label_refs (o_after_jumps o) in
